@@ -79,14 +79,18 @@ def uninstall_parse_memo():
 
 
 def _parse_worker(text):
-    parse = _ORIG_PARSE
-    if parse is None:
-        import beanquery.parser as bqp
-        parse = bqp.parse
+    """parse one statement text and, for BALANCES / JOURNAL, compile it once on an empty ledger so that the template
+    text transform_balances / transform_journal builds for it is parsed as well; returns the new memo entries"""
+    install_parse_memo()
+    before = set(_PARSED)
     try:
-        return text, parse(text)
+        import beanquery.parser as bqp
+        ast = bqp.parse(text)
+        if text.startswith(('BALANCES', 'JOURNAL')):
+            connect([]).execute(ast)
     except Exception:  # noqa  (the statement will raise again, and be reported, where it is executed)
-        return text, None
+        pass
+    return [(k, v) for k, v in _PARSED.items() if k not in before]
 
 
 def preparse(texts, procs=8):
@@ -96,10 +100,12 @@ def preparse(texts, procs=8):
     todo = sorted(t for t in set(texts) if t not in _PARSED)
     if len(todo) < 24:
         return
+    # longest first: a JOURNAL template takes several times longer than a BALANCES statement
+    todo.sort(key=lambda t: (not t.startswith('JOURNAL'), -len(t)))
     with cf.ProcessPoolExecutor(procs, mp_context=multiprocessing.get_context('fork')) as ex:
-        for text, ast in ex.map(_parse_worker, todo, chunksize=6):
-            if ast is not None:
-                _PARSED[text] = ast
+        for pairs in ex.map(_parse_worker, todo, chunksize=3):
+            for k, v in pairs:
+                _PARSED.setdefault(k, v)
 
 
 class unpatched_parser:
